@@ -222,6 +222,48 @@ def check(facts, rep, tier, cfg):
                                     "send-loop" if "ws:start_send" in toks else "receive-loop" if "ws:poll_next" in toks else "?")
                             if role != "?" or ("_%d" % k) not in roles:
                                 roles["_%d" % k] = (role, fb.path)
+    # ---- R7 cancel safety of the send loop: it is dropped by the select when another arm wins, so it must never hold a dequeued message across an await
+    rep.rule("C08.R7", "the send-loop arm (cancelled by the select when the handle is dropped) never awaits while holding a message taken off "
+                       "the outbound queue: dequeue and start_send happen in one synchronous poll step")
+    from an import nested_bodies
+    k7 = 0
+    for arm, (role, fpath) in roles.items():
+        if role != "send-loop":
+            continue
+        fb = [x for x in crate.bodies if x.path == fpath]
+        pool, todo = [], list(nested_bodies(facts, fb[0])) if fb else []
+        while todo:
+            nb0 = todo.pop()
+            if nb0 in pool:
+                continue
+            pool.append(nb0)
+            for _, t0 in nb0.calls():
+                c0 = callee(t0)
+                for kdp in ((c0.get("res"), c0["dp"]) if c0 else ()):
+                    if kdp and kdp in facts.by_dp and facts.by_dp[kdp].crate is crate:
+                        for nb1 in nested_bodies(facts, facts.by_dp[kdp]):
+                            if nb1 not in pool:
+                                todo.append(nb1)
+        for nb in pool:
+            deq = [bi for bi, t in nb.calls() if callee(t) and callee(t)["name"] in ("recv", "try_recv", "poll_recv", "recv_many")
+                   and "UnboundedReceiver::<ws::Message>" in callee(t)["path"] and not nb.blocks[bi]["cleanup"]]
+            yields = set(bi for bi in range(len(nb.blocks)) if nb.term(bi)["k"] == "Yield")
+            sends = set(bi for bi, t in nb.calls() if callee(t) and callee(t)["name"] == "start_send_unpin")
+            for d in deq:
+                k7 += 1
+                w7 = "%s (%s)" % (loc_str(nb.term(d)["loc"]), nb.path)
+                c = callee(nb.term(d))
+                held = nb.reachable_from(nb.term(d)["t"], cut=sends | {d}) if nb.term(d).get("t") is not None else set()
+                # `recv().await`: the future returned by recv() holds no message until it completes; the await that completes it is not "holding"
+                susp = [y for y in held & yields]
+                if susp and c["name"] != "recv":
+                    rep.bad("C08.R7", "cancel-safe-send-loop", w7,
+                            "a message taken off the outbound queue here is held across an await (%s) before it reaches the sink: when the select "
+                            "drops this future (Multiplexor dropped, other arm finished) the frame is lost although it was queued before the drop"
+                            % loc_str(nb.term(susp[0])["loc"]))
+                else:
+                    rep.ok("C08.R7", "cancel-safe-send-loop/%s" % nb.path, w7, "no suspension point between the dequeue and start_send")
+    rep.floor("C08.R7", "dequeue sites in the send-loop arm", k7, 1)
     if len(roles) < 4:
         rep.bad("C08.R2", "select-arms", ewhere, "could not identify the four select arms (found %s)" % roles)
     for arm, vals in sorted(arms.items(), key=lambda kv: str(kv[0])):
